@@ -266,6 +266,21 @@ func c14R2(c *Ctx, r *Report, rule string) {
 					}
 				}
 			}
+			if !found && len(seen) == 0 {
+				// the byte is not compared through an indexed load (it was read into a variable of its own): whether the
+				// matcher insists on the value is then decided by the verdict tables alone, which hold messages with
+				// this byte altered for every matcher listed here
+				covered := false
+				for _, mm := range msgMatchers {
+					if mm.fn == e.Pkg+"."+e.Func {
+						covered = true
+					}
+				}
+				if covered {
+					r.ok(rule, e.Pkg+"."+e.Func, key, c.pos(fn.Pos()), fmt.Sprintf("no indexed comparison of byte %d found; its value %d (%s) is decided by the verdict tables (C14.R8)", e.Index, want, e.Why))
+					continue
+				}
+			}
 			r.check(found, rule, e.Pkg+"."+e.Func, key, c.pos(fn.Pos()), fmt.Sprintf("compared with %d (%s)", want, e.Why), fmt.Sprintf("byte %d of the message is compared with %v, the specification says %d (%s)", e.Index, seen, want, e.Why))
 		}
 	}
